@@ -231,12 +231,12 @@ theorem C02_container_shape (E : Env) (path : Str) (u svc : SUnit) (link : Optio
 theorem C02_volume_shape (E : Env) (path : Str) (u svc : SUnit) (n : Str) (h : fromVolume E path u = .ok (svc, n)) :
     ∃ cmd2, HasExec svc "ExecStart"
       (cmd2 ++ addKeys "--label" (lookupAllKeyVal u (s "Volume") (s "Label")) ++ podmanArgs u (s "Volume") ++ [n]) := by
-  unfold fromVolume at h
+  unfold fromVolume volumeOpts at h
   simp only [bind_ok] at h
   obtain ⟨_, _, _, _, x, _, svc1, hexec, hfin⟩ := h
   simp only [pure, Except.pure, Except.ok.injEq, Prod.mk.injEq] at hfin
   obtain ⟨rfl, rfl⟩ := hfin
-  exact ⟨x.1, (HasExec.of_addRawExec hexec).oneShot true (by decide) (by decide) (by decide)⟩
+  exact ⟨baseCmd E u (s "Volume") ++ [s "volume", s "create", s "--ignore"] ++ x.1, (HasExec.of_addRawExec hexec).oneShot true (by decide) (by decide) (by decide)⟩
 
 /-! ### what systemd runs: the documented option of a table key is in the argument vector -/
 
